@@ -42,6 +42,13 @@ CHECKS = {
             "environments, wrapper stacks, box policies leaving the bounds) is validated clause by clause per environment stream.",
             "training is stubbed through the public dqn_train/sac_train hooks; ring mechanics are C06.",
             "DESIGN.md section 4 C05"),
+    "C19": ("TLA+ EpisodeStats/Eval specs: TLC exhaustive + trace validation of the real LoggingCallback, backend records and average_reward",
+            "TLC proves the latch-based accumulator equal to the declarative per-episode sums/EMA for all reward/done histories "
+            "within bounds (per environment); the real LoggingCallback's statistics are validated inside PPO/A2C/REINFORCE/DQN/SAC "
+            "collector traces against the environment's own rewards, the records reaching the backend are validated per iteration, "
+            "and average_reward is validated on deterministic table MDPs against the first-done-or-cap episode return.",
+            "exact fixed point up to 8 episode ends per trace; evaluation helper decided for deterministic tabular policies.",
+            "DESIGN.md section 4 C19"),
 }
 
 PENDING_REASON = "check not built yet in this round (planned: see DESIGN.md section 4); not claimed until its machinery exists"
